@@ -147,11 +147,23 @@ def walk(L, events, rows):
             if names is None:
                 return ("attributes-raise", f"event {i}: attributes() of {O.event_tuple(ev)} raised")
             got = []
+            bits = 8 * w if w else 0
+            binary = format(int(ev.value) & ((1 << bits) - 1), f"0{bits}b") if bits else ""
+            cover = [0] * bits
             while ri < len(parsed) and parsed[ri].kind == "field" and parsed[ri].type == "" and len(got) < len(names):
                 got.append(parsed[ri].name)
                 if parsed[ri].depth != len(ev.path) or parsed[ri].hex != "":
                     return ("bit-row-shape", f"event {i}: bit row {parsed[ri]}")
+                # "their bit rows": a row shows bits of this word at their positions and dots elsewhere, no bit twice
+                pattern = parsed[ri].value.split(" ")[0]
+                if bits and (len(pattern) != bits or any(ch != "." and ch != binary[k] for k, ch in enumerate(pattern))):
+                    return ("bit-row-bits", f"event {i} {O.event_tuple(ev)}: bit row .{parsed[ri].name} shows {pattern!r}, the word is {binary}")
+                for k, ch in enumerate(pattern):
+                    if ch != ".":
+                        cover[k] += 1
                 ri += 1
+            if any(c > 1 for c in cover):
+                return ("bit-rows-overlap", f"event {i} {O.event_tuple(ev)}: bit rows show positions {[k for k, c in enumerate(cover) if c > 1]} (from the left) more than once")
             if sorted(got) != sorted(names):
                 return ("bit-rows", f"event {i} {O.event_tuple(ev)}: bit rows {got}, fields {names}")
         i += 1
